@@ -38,7 +38,7 @@ m = {
  "setup_cmd": "./run.sh build",
  "hooks": {
   "guard": "overlay (no in-tree build tag): instrumentation is generated from /repo's current working tree by mc/cmd/mkoverlay at check time; nothing under /repo is edited for hooks",
-  "enable": "go build -overlay /verif/.build/overlay.json (done by ./run.sh on every invocation): import sync -> vsync shim, go -> vsync.Go, io.Pipe -> vsync.Pipe, time.Now -> vsync.Now in /repo/pkg/**",
+  "enable": "go build -overlay /verif/.build/overlay.json (done by ./run.sh on every invocation): import sync -> vsync shim, go -> vsync.Go, io.Pipe (and the io.PipeReader/io.PipeWriter types) -> vsync.Pipe, time.Now -> vsync.Now in /repo/pkg/**",
   "baseline_off_cmd": "cd /repo && go test -mod=mod -json -vet=off -count=1 -timeout 25m ./...",
   "source_commits": [],
   "add_only": True
